@@ -21,7 +21,13 @@ import (
 // tor.Expire cases: real torrents in the global table, filled with complete pieces,
 // config.MemoryMark swept (0 and tiny values included), the verif yield between the
 // alloc.Bytes() sample and the table walk used to delete / unregister torrents.
-//   tex <mark> <ps:cnt;ps:cnt…|-> <none|pd:k|td:k|pdall|tdall>
+//   tex <mark> <ps:cnt;ps:cnt…|-> <none|pd:k|td:k|pdall|tdall> [q:<free>:<step>]
+// `q:free:step` = queue pressure: when a torrent answers GetAvailable (i.e. just before its
+// eviction pass starts) its event queue (capacity 512, nobody draining) is filled up to
+// `free` remaining slots; the pass must BLOCK in Torrent.Have(index,false) rather than lose
+// a notification.  Once everything has come to rest, `step` events are drained (room
+// appears little by little), then the queue is drained completely: exactly one
+// TorHave{i,false} per complete piece discarded must come out of it.
 
 type ptor struct {
 	t     *tor.Torrent
@@ -29,23 +35,84 @@ type ptor struct {
 	cnt   int
 	haves atomic.Int64
 	stop  chan struct{}
+	// queue pressure
+	free    int      // -1: no pressure (the queue is always drained)
+	drainCh chan int // how many events to drain next (-1: from now on, everything)
+	filled  atomic.Bool
+}
+
+type fillerEvent struct{} // a harmless event nobody interprets
+
+func (p *ptor) handle(e peer.TorEvent) {
+	switch ev := e.(type) {
+	case peer.TorGetAvailable:
+		if p.free >= 0 && !p.filled.Load() {
+			// the torrent's loop is "busy": its queue fills up and is not drained
+			for len(p.t.Event) < cap(p.t.Event)-p.free {
+				select {
+				case p.t.Event <- fillerEvent{}:
+				default:
+				}
+			}
+			p.filled.Store(true)
+		}
+		ev.Ch <- make([]uint16, p.t.Pieces.Num())
+		close(ev.Ch)
+	case peer.TorHave:
+		if !ev.Have {
+			p.haves.Add(1)
+		}
+	}
 }
 
 func (p *ptor) serve() {
 	for {
+		if p.filled.Load() { // under pressure: drain only what the controller allows
+			select {
+			case n := <-p.drainCh:
+				if n < 0 {
+					p.filled.Store(false)
+					p.free = -1
+					continue
+				}
+				for ; n > 0; n-- {
+					select {
+					case e := <-p.t.Event:
+						p.handle(e)
+					default:
+					}
+				}
+			case <-p.stop:
+				return
+			}
+			continue
+		}
 		select {
 		case e := <-p.t.Event:
-			switch ev := e.(type) {
-			case peer.TorGetAvailable:
-				ev.Ch <- make([]uint16, p.t.Pieces.Num())
-				close(ev.Ch)
-			case peer.TorHave:
-				if !ev.Have {
-					p.haves.Add(1)
-				}
-			}
+			p.handle(e)
 		case <-p.stop:
 			return
+		}
+	}
+}
+
+// waitRest waits until nothing moves any more: allocation, queue lengths and the number
+// of goroutines unchanged for 40 ms (a pass blocked in Have, or finished); bounded.
+func waitRest(pts []*ptor) {
+	sig := func() string {
+		s := fmt.Sprint(alloc.Bytes(), runtime.NumGoroutine())
+		for _, p := range pts {
+			s += fmt.Sprint(" ", len(p.t.Event), p.t.Pieces.Count())
+		}
+		return s
+	}
+	last, same := sig(), 0
+	for w := 0; w < 10000 && same < 40; w++ {
+		time.Sleep(time.Millisecond)
+		if c := sig(); c == last {
+			same++
+		} else {
+			last, same = c, 0
 		}
 	}
 }
@@ -92,13 +159,23 @@ func genPolicyCase(c *vhlib.Ctx, r *vhlib.Rand, idx int) {
 	if len(ts) > 0 {
 		t = strings.Join(ts, ";")
 	}
-	doPolicy(c, fmt.Sprintf("tex %d %s %s", mark, t, act))
+	line := fmt.Sprintf("tex %d %s %s", mark, t, act)
+	if n > 0 && r.Chance(45) {
+		line += fmt.Sprintf(" q:%d:%d", r.PickInt(0, 0, 0, 1, 2, 5), r.PickInt(0, 0, 1, 1, 3))
+	}
+	doPolicy(c, line)
 }
 
 func doPolicy(c *vhlib.Ctx, line string) {
 	f := strings.Fields(line)
-	if len(f) != 4 {
+	if len(f) != 4 && len(f) != 5 {
 		return
+	}
+	qfree, qstep := -1, 0
+	if len(f) == 5 {
+		if n, _ := fmt.Sscanf(f[4], "q:%d:%d", &qfree, &qstep); n != 2 || qfree < 0 || qfree > 511 || qstep < 0 || qstep > 1024 {
+			return
+		}
 	}
 	c.NewCase()
 	journal(line)
@@ -137,7 +214,8 @@ func doPolicy(c *vhlib.Ctx, line string) {
 				}
 				t.Pieces.VerifSetTime(uint32(i), uint32(1+i))
 			}
-			p := &ptor{t: t, ps: uint32(ps), cnt: cnt, stop: make(chan struct{})}
+			p := &ptor{t: t, ps: uint32(ps), cnt: cnt, stop: make(chan struct{}), free: qfree,
+				drainCh: make(chan int)}
 			tor.VerifAdd(t)
 			go p.serve()
 			pts = append(pts, p)
@@ -187,6 +265,26 @@ func doPolicy(c *vhlib.Ctx, line string) {
 		rc, panicked = rr.rc, rr.p
 	case <-time.After(60 * time.Second):
 		panicked = "hang"
+	}
+	if qfree >= 0 && panicked == "" {
+		// let every pass run until it has finished or is blocked on the full queue, then
+		// make room: first `qstep` events, finally everything
+		release := func(n int) {
+			for _, p := range pts {
+				if p.filled.Load() {
+					select {
+					case p.drainCh <- n:
+					case <-time.After(5 * time.Second):
+					}
+				}
+			}
+		}
+		waitRest(pts)
+		if qstep > 0 {
+			release(qstep)
+			waitRest(pts)
+		}
+		release(-1)
 	}
 	// quiescence: the per-torrent eviction goroutines have returned
 	for w := 0; w < 20000 && runtime.NumGoroutine() > g0; w++ {
@@ -242,7 +340,9 @@ func doPolicy(c *vhlib.Ctx, line string) {
 		if act == "none" && rc < 0 && alloc.Bytes()-base > low {
 			c.Violate("expire-policy:low-mark-missed", fmt.Sprintf("after the pass alloc.Bytes()=%d, low mark %d", alloc.Bytes()-base, low), []string{line})
 		}
-		if !evictedOK {
+		if !evictedOK && qfree >= 0 {
+			c.Violate("notify:lost-piece-unreported", "complete pieces were discarded while the torrent's event queue was full and their Have(false) notifications never arrived (the pass must block until there is room): "+obs, []string{line})
+		} else if !evictedOK {
 			c.Violate("expire-policy:have-events", "the evicted complete pieces were not all reported by Have(false): "+obs, []string{line})
 		}
 		if rc >= 0 {
@@ -255,6 +355,9 @@ func doPolicy(c *vhlib.Ctx, line string) {
 	}
 	c.Emit(line, obs)
 	tag := "tex " + act[:2]
+	if qfree >= 0 {
+		tag += " q"
+	}
 	if panicked != "" {
 		tag += " -> panic"
 	} else {
